@@ -272,6 +272,15 @@ func (p *Prog) IsRepoFn(fn *ssa.Function) bool {
 
 // Fn resolves "pkgpath", "(*T).M" | "T.M" | "F" | "F$1" to an SSA function.
 func (p *Prog) Fn(pkg, name string) *ssa.Function {
+	fn := p.fnByName(pkg, name)
+	if fn != nil {
+		p.recordFn(pkg, name, fn)
+		return fn
+	}
+	return p.renamedFn(pkg, name)
+}
+
+func (p *Prog) fnByName(pkg, name string) *ssa.Function {
 	var key string
 	switch {
 	case strings.HasPrefix(name, "(*"):
@@ -320,10 +329,47 @@ func (p *Prog) Field(pkg, typ, field string) *types.Var {
 	}
 	for i := 0; i < st.NumFields(); i++ {
 		if st.Field(i).Name() == field {
+			p.recordField(pkg, typ, field, st.Field(i), st)
 			return st.Field(i)
 		}
 	}
-	return nil
+	return p.renamedField(pkg, typ, field, st)
+}
+
+// FieldLike resolves a struct field by name, or -- when a maintainer renamed
+// it -- as the only field of the struct whose type typeOK accepts.
+func (p *Prog) FieldLike(pkg, typ, field string, typeOK func(types.Type) bool) *types.Var {
+	if f := p.Field(pkg, typ, field); f != nil && typeOK(f.Type()) {
+		return f
+	}
+	n := p.Named(pkg, typ)
+	if n == nil {
+		return nil
+	}
+	st, ok := n.Underlying().(*types.Struct)
+	if !ok {
+		return nil
+	}
+	var found *types.Var
+	for i := 0; i < st.NumFields(); i++ {
+		if typeOK(st.Field(i).Type()) {
+			if found != nil {
+				return nil
+			}
+			found = st.Field(i)
+		}
+	}
+	return found
+}
+
+func isMutexType(t types.Type) bool {
+	s := t.String()
+	return s == "sync.Mutex" || s == "sync.RWMutex"
+}
+
+func isBoolType(t types.Type) bool {
+	b, ok := t.Underlying().(*types.Basic)
+	return ok && b.Kind() == types.Bool
 }
 
 // Const returns a package-level constant object.
@@ -333,7 +379,14 @@ func (p *Prog) Const(pkg, name string) *types.Const {
 		return nil
 	}
 	c, _ := pp.Types.Scope().Lookup(name).(*types.Const)
-	return c
+	if c != nil {
+		p.recordConst(pkg, name, c, pp.Types)
+		return c
+	}
+	if pp.Types.Scope().Lookup(name) != nil {
+		return nil
+	}
+	return p.renamedConst(pkg, name, pp.Types)
 }
 
 func (p *Prog) Pos(pos token.Pos) string {
